@@ -204,6 +204,15 @@ structure Obj (α : Type) where
 def objInit (lq : LQ α) (Tfin : Nat) (Rf : M α) : Obj α :=
   if Tfin ≠ 0 then ⟨lq, Tfin, Rf, some Rf, 0, none⟩ else ⟨lq, 0, Rf, none, 0, none⟩
 
+/-- `(self.C != 0).any()` -/
+def anyNonzero (C : M α) : Bool :=
+  (List.range C.nr).any fun i => (List.range C.nc).any fun j => !(C.get i j == 0)
+
+/-- `__init__` with its validation (lines 136-151): in the infinite-horizon case (`T` falsy) a model with noise
+    (`C` has a non-zero entry) and `beta >= 1` is rejected with `ValueError`; otherwise the object of `objInit` -/
+def objInitChecked [LE α] [DecidableLE α] (lq : LQ α) (Tfin : Nat) (Rf : M α) : Option (Obj α) :=
+  if Tfin = 0 ∧ anyNonzero lq.C = true ∧ 1 ≤ lq.beta then none else some (objInit lq Tfin Rf)
+
 /-- a public call; the Riccati solver's result is a parameter of the calls that may invoke it, the
     shocks are a parameter of `compute_sequence` -/
 inductive Call (α : Type) where
@@ -457,6 +466,38 @@ def markovD (sol : M α → M α → Option (M α)) (Pi : M α) (lqs : List (LQ 
   let PX := mmul (smul beta Pi) X
   sol (msub (ident m) (smul beta Pi)) (M.tab m 1 fun i _ => PX.get i i)
 
+/-! ### LQMarkov.compute_sequence (_lqcontrol.py 585-624) for a given regime path -/
+
+/-- `lst[i]` for a list of LQ regimes -/
+def nthLQ (lqs : List (LQ α)) (i : Nat) : LQ α :=
+  lqs.getD i ⟨nth [] 0, nth [] 0, nth [] 0, nth [] 0, nth [] 0, nth [] 0, 0⟩
+
+/-- lines 610, 616-618 / 620-622: `As[s] @ x + Bs[s] @ u + Cs[s] @ w[:, t]` — the regime used for the move INTO
+    period `t` is `s = state[t]` (the regime of the arrival period, as the code does it) -/
+def mkvStep (lq : LQ α) (x u wt : M α) : M α := madd (madd (mmul lq.A x) (mmul lq.B u)) (mmul lq.C wt)
+
+/-- lines 615-622. `rs` = the regimes `state[t], state[t+1], …, state[T]` still to come, `x = x_{t-1}`,
+    `u = u_{t-1}`; returns `(x_{t-1} … x_T, u_{t-1} … u_{T-1})` -/
+def mkvLoop (lqs : List (LQ α)) (Fs : List (M α)) (W : M α) : List Nat → Nat → M α → M α → List (M α) × List (M α)
+  | [], _, x, u => ([x], [u])
+  | s :: r, t, x, u =>
+    let x' := mkvStep (nthLQ lqs s) x u (col W t)
+    match r with
+    | [] => ([x, x'], [u])
+    | _ :: _ =>
+      let p := mkvLoop lqs Fs W r (t + 1) x' (ctrl (nth Fs s) x')
+      (x :: p.1, u :: p.2)
+
+/-- `LQMarkov.compute_sequence` after the policies `Fs` are known, for the simulated regime path
+    `state = s0 :: rs` (`T + 1` regimes, an input: the chain simulation is property C10) and shocks `W`;
+    `none` = the path has fewer than two regimes (`T = 0` cannot happen: `ts_length` falsy means 100) -/
+def markovSequence (lqs : List (LQ α)) (Fs : List (M α)) (state : List Nat) (x0 W : M α) :
+    Option (List (M α) × List (M α)) :=
+  match state with
+  | [] => none
+  | [_] => none
+  | s0 :: r => some (mkvLoop lqs Fs W r 1 x0 (ctrl (nth Fs s0) x0))
+
 end generic
 
 /-! ### driver -/
@@ -628,6 +669,26 @@ def handleG (pm : String → Option (List (List β))) (ps : String → Option β
         s!"costG={sd (ruleCostM lq G T x0)} costF={sd (ruleCostM lq F T x0)} gap={sd (ruleGapM lq (lqS1 lq P) F G T x0)} tailG={sd (eG.2 * quadM P eG.1)} tailF={sd (eF.2 * quadM P eF.1)} v0={sd (quadM P x0)}"
       else "bad-op"
     | _, _, _, _, _, _ => "bad-op"
+  | "mkvseq" :: r =>
+    -- LQMarkov.compute_sequence: regimes `A<i>,B<i>,C<i>,Q<i>,R<i>,N<i>`, policies `F<i>`, regime path `st`, shocks `W`
+    match kvNat r "m", kvNats r "st", (kv r "x0").bind pm, (kv r "W").bind pm with
+    | some m, some st, some x0, some W =>
+      let regs := (List.range m).map fun i =>
+        match parseLQ pm ps r (toString i), (kv r ("F" ++ toString i)).bind pm with
+        | some lq, some F => if shape F lq.Q.nr lq.R.nr then some (lq, matOf F) else none
+        | _, _ => none
+      match allSome regs with
+      | none => "bad-op"
+      | some rl =>
+        let n := (rl.headD (⟨zero 0 0, zero 0 0, zero 0 0, zero 0 0, zero 0 0, zero 0 0, 0⟩, zero 0 0)).1.R.nr
+        let jj := (rl.headD (⟨zero 0 0, zero 0 0, zero 0 0, zero 0 0, zero 0 0, zero 0 0, 0⟩, zero 0 0)).1.C.nc
+        if m ≠ 0 && m ≤ 6 && st.all (· < m) && st.length ≤ 202 && shape x0 n 1 && shape W jj st.length &&
+           rl.all (fun q => q.1.R.nr == n && q.1.C.nc == jj) then
+          match markovSequence (rl.map (·.1)) (rl.map (·.2)) st (matOf x0) (matOf W) with
+          | none => "ERR:IndexError"
+          | some (xs, us) => s!"x={showMs sm xs} u={showMs sm us}"
+        else "bad-op"
+    | _, _, _, _ => "bad-op"
   | "rblqd" :: r =>
     match (kv r "C").bind pm, (kv r "theta").bind ps, (kv r "P").bind pm with
     | some C, some th, some P =>
@@ -733,6 +794,26 @@ def handle (toks : List String) : String :=
         s!"kappa={showRat kap} pmax={showRat (maxAbs C06.gabs (matOf P))} bk2={showRat (b * kap ^ 2)}"
       else "bad-op"
     | _, _, _, _, _ => "bad-op"
+  | "init" :: r =>
+    -- LQ.__init__: ValueError branch and the initial (P, d, F)
+    match parseLQ (parseMat? parseRat?) parseRat? r, kvNat r "T" with
+    | some lq, some T =>
+      let n := lq.R.nr
+      let Rf? : Option (M Rat) :=
+        if T = 0 then some (zero n n) else
+          match kvRatMat r "Rf" with
+          | some Rf => if shape Rf n n then some (matOf Rf) else none
+          | none => none
+      match Rf? with
+      | none => "bad-op"
+      | some Rf =>
+        match objInitChecked lq T Rf with
+        | none => "ERR:ValueError"
+        | some o =>
+          let sP := match o.P with | none => "None" | some P => showRatM P
+          let sd := match o.P with | none => "None" | some _ => showRat o.d
+          s!"P={sP} d={sd} F=None T={o.Tfin}"
+    | _, _ => "bad-op"
   | "rat" :: r => handleG (parseMat? parseRat?) parseRat? showRatM showApprox r
   | "float" :: r => handleG (parseMat? parseFloat?) parseFloat? showFloatM showFloatBits r
   | _ => "bad-op"
